@@ -6,7 +6,8 @@
   What is modelled: which tensors are visited, which decomposition (QR / SVD) each visited tensor gets
   (`qr or not tsr_mask`), the shape of every output tensor, the number of singular values kept
   (`s = s / s[0]; s = s[s > tol] if tol; s = s[:chi] if chi; u[:, :len(s)]`), the zero tests
-  (`not r_norm`, `not max_s`, `not last_row_norm`) with their `zeros_like(mps), norm = 0; break`, the
+  (`not r_norm`, `not max_s`, `not len(s)` after the tol filter — no normalised singular value exceeds tol, i.e.
+  tol ≥ 1 —, `not last_row_norm`) with their `zeros_like(mps), norm = 0; break`, the
   assertions, the ValueError of a non-contiguous MPS, the einsum bond check, the guard of `truncate`.
 
   What is NOT modelled: the numeric entries.  Everything the control flow reads from LAPACK / the entries
@@ -125,7 +126,10 @@ inductive StepRes
   | keep (k : Nat)
 deriving DecidableEq, Repr
 
-/-- one decomposition: `rows × cols` matrix, QR or SVD, against the oracle entry the code produced -/
+/-- one decomposition: `rows × cols` matrix, QR or SVD, against the oracle entry the code produced.
+    SVD: `max_s = 0` raises the zero flag; so does a tolerance that no normalised singular value exceeds
+    (`s = s[s > tol]; if not len(s): zeros_like, norm 0, break` — kept rank 0, reachable only with tol on, see
+    `keptSigmas_length_eq_zero_iff` in Lemmas/MpsShape.lean), exactly like the σ₀ = 0 exit. -/
 def stepDecide (p : Params) (useQr : Bool) (rows cols : Nat) : Orc → Except Err StepRes
   | .qr rn =>
       if useQr then (if rn = 0 then .ok .zero else .ok (.keep (min rows cols))) else .error .oracle
@@ -135,6 +139,7 @@ def stepDecide (p : Params) (useQr : Bool) (rows cols : Nat) : Orc → Except Er
       | [] => .error .oracle   -- `s[0]` needs one value; LAPACK returns min(rows, cols) ≥ 1 of them
       | s0 :: _ =>
           if s0 = 0 then .ok .zero
+          else if (keptSigmas p.chi p.tol sig).length = 0 then .ok .zero
           else .ok (.keep (min (min rows cols) (keptSigmas p.chi p.tol sig).length))
   | .last _ => .error .oracle
 
